@@ -5,3 +5,5 @@ package fsutil
 import gofs "io/fs"
 
 func verifAfterWalkEntry(string, gofs.DirEntry) {}
+
+func verifAfterWriterChmod(string) {}
